@@ -52,9 +52,12 @@ RANGE = {"apduMaxSegs": [0, 1, 2, 4, 7], "apduMaxResp": [0, 1, 2, 4, 8, 15]}
 OCTET = [0, 1, 2, 4, 8, 16, 32, 64, 128, 255]
 
 
-def field_cases(t):
-    """one-at-a-time variation of every field over values that exercise each bit, for every flag combination"""
+def field_cases(t, wide=False):
+    """one-at-a-time variation of every field over values that exercise each bit (thorough tier: every value of the
+    field's range), for every flag combination"""
     import itertools
+    RANGE = {"apduMaxSegs": list(range(8)), "apduMaxResp": list(range(16))} if wide else globals()["RANGE"]
+    OCTET = list(range(256)) if wide else globals()["OCTET"]
     names = REF_FIELDS[t]
     flags = [n for n in names if n in FLAGS]
     nums = [n for n in names if n not in FLAGS]
@@ -110,7 +113,7 @@ def r1(ctx):
     for t in range(8):
         enc_ok = dec_ok = rt_ok = True
         enc_msg = dec_msg = ""
-        for f in field_cases(t):
+        for f in field_cases(t, wide=(ctx.tier == "thorough")):
             ncases += 1
             want = ref_encode(t, f)
             env = {"self.apduType": t}
